@@ -1,6 +1,7 @@
 mod alloc;
 mod bfs;
 mod checks;
+mod child;
 mod counters;
 mod ev;
 mod refmodel;
@@ -18,6 +19,15 @@ fn main() {
     let args: Vec<String> = std::env::args().collect();
     if args.len() < 3 {
         usage();
+    }
+    if args[1] == "case" {
+        util::silence_panics();
+        let code = match args[2].as_str() {
+            "amf0" => checks::c14::case_main(&args[3..]),
+            "cfg" => checks::c19::case_main(&args[3..]),
+            _ => 2,
+        };
+        std::process::exit(code);
     }
     let id = args[1].as_str();
     let mut tier = args[2].clone();
@@ -47,10 +57,12 @@ fn main() {
         "C11" => (ex, Box::new(|r| checks::c11::run(r))),
         "C12" => (ex, Box::new(|r| checks::amf0::run_c12(r))),
         "C13" => (ex, Box::new(|r| checks::c13::run(r))),
+        "C14" => (ex, Box::new(|r| checks::c14::run(r))),
         "C15" => (mc, Box::new(|r| checks::c15::run(r))),
         "C16" => (mc, Box::new(|r| checks::c16::run(r))),
         "C17" => (mc, Box::new(|r| checks::c17::run(r))),
         "C18" => (mc, Box::new(|r| checks::c18::run(r))),
+        "C19" => (ex, Box::new(|r| checks::c19::run(r))),
         "C20" => (ex, Box::new(|r| checks::c20::run(r))),
         _ => usage(),
     };
